@@ -50,6 +50,8 @@ def init(delay, t3=None):
 
 S1F17 = ("rx", 1, 17, 1, "in", None)  # Request ON-LINE: brings the equipment's control state ON-LINE (REMOTE)
 USER_CB = (64, 1)  # an uncatalogued stream/function with a user callback (counts calls, returns None)
+USER_CB9 = (9, 1)  # a stream-9 function (the peer's complaint about a message of ours) with a user callback
+USER_CBS = [USER_CB, USER_CB9]
 
 
 def rx14(kind, commack):
@@ -74,7 +76,9 @@ RX14_ALL = [rx14(k, c) for k in ("match", "old", "foreign") for c in (0, 1, 63, 
     + [rx14("foreign", "empty")]
 RX14_KEY = [rx14("match", 0), rx14("match", 1), rx14("match", 63), rx14("foreign", 0), rx14("old", 0), rx14("match", "empty")]
 OTHER = [("rx", 1, 1, 1, "in", None), ("rx", 1, 1, 0, "in", None), ("rx", USER_CB[0], USER_CB[1], 1, "in", None),
-         ("rx", 99, 1, 1, "in", None), ("rx", 1, 3, 1, "in", None), ("rx", 1, 0, 0, "in", None)]
+         ("rx", 99, 1, 1, "in", None), ("rx", 1, 3, 1, "in", None), ("rx", 1, 0, 0, "in", None),
+         ("rx", USER_CB9[0], USER_CB9[1], 0, "in", None), ("rx", 9, 5, 0, "in", None)]
+S9F1 = OTHER[6]
 
 
 def letter_name(lt):
@@ -104,7 +108,7 @@ class Run:
     """one history against one real handler"""
 
     def __init__(self, role, commack_req, delay=None, t3=None):
-        self.rig = Rig(role, commack_req, user_cbs=[USER_CB], delay=delay, t3=t3)
+        self.rig = Rig(role, commack_req, user_cbs=USER_CBS, delay=delay, t3=t3)
         self.dead = False
         self.role, self.commack_req = role, commack_req
         self.sys2id: dict[int, int] = {}
@@ -400,7 +404,7 @@ def _oracle(steps):
 
 # ------------------------------------------------------------------------------------------------ histories
 def history_tokens(role, commack_req, flags, tokens):
-    return f"gemcomm run {role} {commack_req} {flags} {USER_CB[0]}.{USER_CB[1]} " + ",".join(tokens)
+    return f"gemcomm run {role} {commack_req} {flags} {','.join(f'{a}.{b}' for a, b in USER_CBS)} " + ",".join(tokens)
 
 
 def with_companion(role_b, letters_b):
@@ -501,7 +505,7 @@ def gen_histories(rng, tier, search):
     big = tier == "thorough" or search
     out = []  # (role, commack_req, letters, kind)
     depth = 4 if tier == "thorough" else 3
-    wide = RX14_KEY + [OTHER[0], OTHER[2]] + [EN, DIS, SEL, LOST, T3, DLY, RX13]
+    wide = RX14_KEY + [OTHER[0], OTHER[2], S9F1] + [EN, DIS, SEL, LOST, T3, DLY, RX13]
     wide_cfg = wide + [CFG, RX13Z]
     for role in ("equipment", "host"):
         for bi, base in enumerate(BASES):
@@ -551,6 +555,12 @@ def gen_histories(rng, tier, search):
                 c = setcfg(value, "t3", via)
                 for hist in ([c, EN, SEL], [EN, SEL, T3, c, DLY], [EN, c, SEL, T3, DLY]):
                     out.append((role, 0, hist, "exh-settings"))
+    # messages that have a registered callback (user: S64F1, S9F1; built-in: S1F1) arriving in every state that is not established
+    for role in ("equipment", "host"):
+        for pre in ([], [EN], [EN, CON], [EN, SEL], [EN, SEL, T3], [EN, SEL, rx14("match", 0), LOST], [EN, SEL, rx14("match", 0), DIS],
+                    [EN, SEL, T3, LOST, SEL], [EN, SEL, rx14("match", 0), LOST, SEL]):
+            for msg in (S9F1, OTHER[2], OTHER[0], OTHER[7]):
+                out.append((role, 0, pre + [msg, msg], "exh-callback"))
     # a second, independent handler in the same process goes through its own establish sequence, letter by letter
     scripts = ([EN, SEL, rx14("match", 0), OTHER[0], LOST, SEL, T3], [EN, SEL, RX13, DIS, EN], [EN, SEL, T3, DLY, rx14("match", 0), LOST],
                [EN, CON, SEL, rx14("match", 1), DLY, rx14("match", 0)])
